@@ -45,7 +45,7 @@ SI_SCALE = {'length': 1e-10, 'velocity': 1e2, 'force': 1e-9, 'energy': 1e-19, 'p
 PROPS = {'vel': ('velocity', (3,), 'float'), 'force': ('force', (3,), 'float'), 'charge': ('charge', (), 'float'),
          'pe': ('energy', (), 'float'), 'stress': ('pressure', (3, 3), 'float'), 'tag': ('none', (), 'int'),
          'label': ('none', (), 'str'), 'ratio': ('none', (), 'float'), 'imgs': ('none', (3,), 'int'),
-         'disp': ('length', (3,), 'float')}
+         'disp': ('length', (3,), 'float'), 'tags2': ('none', (2,), 'str')}
 SYMS = ['Al', 'Cu', 'Fe', 'Ni', 'Mg', 'Ti', 'Al-alt', 'vac']
 LABELS = ['core', 'bulk', 'surf', 'gb', 'xA', 'yB']
 # labels that look like numbers: exact through the DataModelDict object and JSON; XML re-types them (dependency
@@ -93,7 +93,7 @@ class ModelEngine(Engine):
     expected_probes = ['read_in_other_epoch', 'xml_read', 'json_read', 'dm_read', 'path_read', 'stream_read', 'short_read_stream',
                        'scaled_property', 'symbols_with_gap', 'masses_partly_none', 'one_atom_system', 'length1_array',
                        'rank3_value', 'rewrite_chain', 'elastic_normalised', 'unseeded_epoch', 'string_property', 'error_field',
-                       'noncontiguous_input', 'box_read_into_used_object', 'io_error_read_raised', 'second_write_same_arguments', 'single_property_record', 'integer_typed_positions']
+                       'noncontiguous_input', 'box_read_into_used_object', 'io_error_read_raised', 'second_write_same_arguments', 'single_property_record', 'integer_typed_positions', 'nonfinite_values_round_tripped', 'same_object_dumped_again_after_edit']
     rule = ('Each run is a history of up to 30 operations over a set of up to 10 serialised artifacts: build a value-with-units / '
             'Box / Atoms / System / ElasticConstants in the current epoch from simulator-held physical (SI, dimension) values and '
             'write it (arrays handed over C-ordered, Fortran-ordered, transposed or as strided views; uc.model, .model(), dump("system_model"), JSON or XML text with any indent, returned / to path / to stream); '
@@ -236,6 +236,9 @@ class ModelEngine(Engine):
                     vals = [r.choice(NUMLABELS if (op['enc'] != 'xml' and r.random() < 0.3) else LABELS) for _ in range(cnt)]
                 else:
                     vals = [r.uniform(-9, 9) * SI_SCALE[kind] for _ in range(cnt)]
+                    if ts == () and r.random() < 0.12:      # scalars only: a vector with an infinite component has no box-relative form
+                        for _ in range(r.randint(1, 2)):
+                            vals[r.randrange(cnt)] = r.choice([float('nan'), float('inf'), float('-inf')])
                 props[nm] = vals
                 u = self._gen_units(ctx, kind)
                 if what == 'system' and ts == (3,) and cls == 'float' and kind == 'length' and r.random() < 0.4:
@@ -248,7 +251,7 @@ class ModelEngine(Engine):
             units['atype'] = None
             op.update(n=n, V=V * 1e-10, origin=o * 1e-10, atype=atype, pos=pos, props=props, units=units,
                       subset=r.choice([False, False, False, False, True, 'one']), by=r.choice(['prop_unit', 'lists', 'default']),
-                      int_pos=r.random() < 0.15)
+                      int_pos=r.random() < 0.15, redump=r.random() < 0.4)
             if what == 'system':
                 nsym = r.choice([0, ntypes, ntypes, ntypes + 1])
                 syms = [r.choice(SYMS + [None]) for _ in range(nsym)]
@@ -506,6 +509,7 @@ class ModelEngine(Engine):
                 ctx.probe('noncontiguous_input')
         atoms = ctx.must('C10.X', am.Atoms, atype=np.array(op['atype'], dtype=int), pos=pos, klass='Atoms()', **arrs)
         snap = {nm: np.array(atoms.view[nm]) for nm in atoms.view}
+        redump_scale = {}
         system = None
         kw_before = None
         units = dict(op['units'])
@@ -569,6 +573,16 @@ class ModelEngine(Engine):
                 ikw = {} if op['indent'] is None else {'indent': op['indent']}
                 if op['dest'] == 'return':
                     text = ctx.must('C10.J4', system.dump, 'system_model', format=fmt, klass='dump/system_model/' + fmt, **ikw, **kw)
+                    fl = [nm for nm in sorted(arrs) if arrs[nm].dtype.kind == 'f' and nm in names and units.get(nm) != 'scaled']
+                    if op.get('redump') and fl:
+                        # the caller updates a property of the live system (positions untouched) and writes the SAME object again:
+                        # the second record must hold the new values
+                        nm2 = fl[0]
+                        system.atoms.view[nm2][...] *= 1.5
+                        redump_scale[nm2] = 1.5
+                        snap[nm2] = np.array(system.atoms.view[nm2])
+                        text = ctx.must('C10.J4', system.dump, 'system_model', format=fmt, klass='dump/system_model/again/' + fmt, **ikw, **kw)
+                        ctx.probe('same_object_dumped_again_after_edit')
                 elif op['dest'] == 'path':
                     st['nfile'] += 1
                     p = os.path.join(st['scratch'], 'd%d.%s' % (st['nfile'], fmt))
@@ -614,7 +628,9 @@ class ModelEngine(Engine):
         live = system.atoms if system is not None else atoms
         for nm, before in snap.items():
             now = np.asarray(live.view[nm])
-            if now.shape != before.shape or not np.array_equal(now, before):
+            same = now.shape == before.shape and (np.array_equal(now, before, equal_nan=True) if before.dtype.kind == 'f'
+                                                  else np.array_equal(now, before))
+            if not same:
                 raise Violation('C10.J7', {'what': 'serialising changed the object that was serialised', 'property': nm,
                                            'before': before, 'after': now, 'via': op.get('via'), 'units': op['units'].get(nm)},
                                 klass='mutated-by-write/%s/%s' % (what, 'pos' if nm == 'pos' else 'prop'))
@@ -633,7 +649,7 @@ class ModelEngine(Engine):
                 kind, ts, cls = PROPS[nm]
                 if cls == 'float':
                     dim = UNITS_BY_KIND[kind][0]
-                    si = np.array(op['props'][nm], dtype=float).reshape((n,) + ts)
+                    si = np.array(op['props'][nm], dtype=float).reshape((n,) + ts) * redump_scale.get(nm, 1.0)
                     if u == 'scaled':
                         # stored box-relative: survives an epoch change only together with a unit-tagged box
                         t.fields['p:' + nm] = {'si': si, 'dim': dim, 'tagged': False, 'scaled': True, 'scaled_dim': dim}
@@ -795,6 +811,16 @@ class ModelEngine(Engine):
             if got.dtype.kind not in 'fiu':
                 raise Violation('C10.J2', {'what': 'numeric quantity came back non-numeric', 'field': name, 'dtype': str(got.dtype)}, klass='dtype/' + klass)
             phys = got.astype(float) / scale_of(base, dim)
+            fin = np.isfinite(si)
+            if not np.all(fin):
+                # not-a-number and infinite entries (a diverged per-atom quantity) must come back as what they were
+                same = (np.isnan(phys) & np.isnan(si)) | ((phys == si) & ~fin)
+                if not np.all(same[~fin]) or np.any(~np.isfinite(phys[fin])):
+                    raise Violation('C10.J2', {'what': 'non-finite entries not reproduced', 'field': name, 'got': phys, 'want': si},
+                                    klass='nonfinite/%s/%s' % (name, klass))
+                ctx.probe('nonfinite_values_round_tripped')
+                phys = np.where(fin, phys, 0.0)
+                si = np.where(fin, si, 0.0)
             tol = RT * max(float(np.abs(si).max()), 1e-300)
             if f.get('scaled'):
                 Vsi = t.fields['vects']['si']
